@@ -10,6 +10,7 @@ from ..ref import deflate_peer
 from . import c04
 
 LEVEL = 'fault_enumeration'
+TECHNIQUE = 'runtime monitoring with fault enumeration: one injected fault per recorded socket operation / byte offset, plus real loopback RST/FIN'
 BUDGET_S = {'quick': 35, 'thorough': 240}
 REQUIRED = {'all': ['oracle.fault_runs_judged', 'faults.hit', 'oracle.offset_runs_judged', 'oracle.multi_address_runs',
                     'oracle.socket_close_checked']}
